@@ -28,7 +28,7 @@ MANIFEST = {
 }
 MANIFEST["text"] += " " + (
     'Added after the seeding waves: reopening is enabled whenever nothing is uncommitted (a deferred index is a persistent, self-consistent state of the file).')
-BUDGET = {"quick": 300, "thorough": 1800}
+BUDGET = {"quick": 600, "thorough": 1800}
 RULE = ("cases = (backend, metric flag, projection settings, label kind, first operation); below each a BFS to the stated depth. "
         "states = distinct canonical (snapshot, pending flags) states reached, transitions = operations executed on the real object "
         "(including replays to rebuild a state), traces validated = reopen transitions whose post-state was compared; non-trivial = "
